@@ -24,6 +24,7 @@ import (
 	"errors"
 	"fmt"
 	"math/rand"
+	"net"
 	"os"
 	"path/filepath"
 	"sort"
@@ -39,6 +40,7 @@ import (
 	"go.uber.org/zap"
 	"google.golang.org/grpc/codes"
 	"google.golang.org/grpc/metadata"
+	"google.golang.org/grpc/peer"
 	"google.golang.org/grpc/status"
 )
 
@@ -66,7 +68,8 @@ type vStream struct {
 }
 
 func vNewStream(stalled bool) *vStream {
-	ctx, cancel := context.WithCancel(context.Background())
+	// every stream carries the same peer address, as several subscriptions opened on one client connection do
+	ctx, cancel := context.WithCancel(peer.NewContext(context.Background(), &peer.Peer{Addr: &net.TCPAddr{IP: net.IPv4(127, 0, 0, 1), Port: 40404}}))
 	s := &vStream{ctx: ctx, cancel: cancel, arrive: make(chan struct{}, 1<<16), inSend: make(chan struct{}),
 		inWindow: make(chan struct{}), winRelease: make(chan struct{})}
 	if stalled {
@@ -391,6 +394,10 @@ func (h *vHarness) deliverySequence() {
 	pool[2].addr = pool[0].addr   // same address, different chain
 	if pool[2].chain == pool[0].chain {
 		pool[2].chain = pool[0].chain%1000 + 3
+	}
+	if r.Intn(2) == 0 {
+		// ... a chain id that differs only above the low byte (17 / 10001, 2 / 258, 65535 / 255)
+		pool[2].chain = pool[0].chain + uint16(256*(1+r.Intn(3)))
 	}
 	h.emit("spynew %s\n", cid)
 	var subs []*vSub
@@ -878,6 +885,31 @@ func (h *vHarness) slowScenario(cid string) {
 		for i := r.Intn(3); i > 0; i-- {
 			publish(e2)
 		}
+	}
+	if r.Intn(2) == 0 {
+		// a burst while A is not reading: the publisher has to wait for A (one-slot queue), nothing may be dropped. The
+		// publisher runs on its own goroutine; A starts reading again shortly after, or once the burst is through.
+		burst := 70 + r.Intn(60)
+		fin := make(chan struct{})
+		go func() {
+			defer close(fin)
+			for i := 0; i < burst; i++ {
+				bts := h.mkVAAn(e1, plen, nsig)
+				pubs = append(pubs, bts)
+				decs = append(decs, fmt.Sprintf("%d:%s", e1.chain, hex.EncodeToString(e1.addr[:])))
+				res, late := vPublish(s, bts, 20*d)
+				if late != nil {
+					res = <-late
+				}
+				ress = append(ress, res)
+			}
+		}()
+		select {
+		case <-fin:
+		case <-time.After(30 * time.Millisecond):
+		}
+		open()
+		<-fin
 	}
 	open()
 	publish(e1)
